@@ -76,7 +76,23 @@ def run_set(tree, tier, seed, extra_args=None, tag=""):
                 "-capacity", str(t["capacity"]), "-par", "12", "-out", trace]
         if extra_args:
             args = [os.path.join(d, "schedrun")] + extra_args + ["-out", trace]
-        C.sh(args, timeout=3000)
+        q = C.sh(args, timeout=3000, check=False)
+        if q.returncode != 0:
+            crash = impl_crash(q.stdout or "")
+            if crash is None:
+                raise C.Infra("command failed (%d): %s\n%s" % (q.returncode, " ".join(map(str, args)), (q.stdout or "")[-4000:]))
+            # The scheduler under test brought the harness process down (nil dereference, fatal error,
+            # unrecovered panic in a frame of go.uber.org/cff): that is an outcome of the implementation, not
+            # an infrastructure error.  Every scheduler-level property loses its evidence on this tree; the
+            # replay is the stack and the command that reproduces it.
+            res = {"scenarios": 0, "summary": {}, "fails": {p_: [("crash", "the scheduler crashed the process: " + crash[0])] for p_ in PROPS},
+                   "divs": {}, "div_counts": {}, "kept": {"crash": ["# " + l for l in crash[1].splitlines()[:60]] +
+                                                          ["# reproduce: " + " ".join(map(str, args))]},
+                   "samples": [], "replayed_ok": 0, "trace_events": 0, "late_enqueue_scenarios": 0,
+                   "invalid_at_registration_scenarios": 0, "wall_s": round(time.time() - t0, 1), "crashed": True}
+            with open(js, "w") as f:
+                json.dump(res, f)
+            return res
         drvout = os.path.join(d, name + ".replay")
         with open(trace) as fin, open(drvout, "w") as fout:
             C.sh([drv, "sched"], stdin=fin, stdout=fout, timeout=3000)
@@ -87,6 +103,32 @@ def run_set(tree, tier, seed, extra_args=None, tag=""):
             json.dump(res, f)
         # traces are large; keep only what a replay needs
         return res
+
+
+def impl_crash(out):
+    """If `out` (combined output of a harness binary) shows a Go runtime crash whose innermost non-runtime frame
+    is a function of go.uber.org/cff (not of the harness module go.uber.org/cff/verifh), returns
+    (one-line description, stack excerpt); otherwise None."""
+    m = re.search(r"(panic: [^\n]*|fatal error: [^\n]*|SIGSEGV[^\n]*)", out)
+    if not m:
+        return None
+    i = out.find("goroutine ", m.start())
+    if i < 0:
+        return None
+    block = out[i:i + 6000]
+    for line in block.splitlines()[1:]:
+        line = line.strip()
+        if not line or line.startswith("/") or line.startswith("created by") and False:
+            continue
+        if line.startswith("runtime.") or line.startswith("panic(") or line.startswith("runtime/"):
+            continue
+        if line.startswith("go.uber.org/cff/verifh") or line.startswith("main."):
+            return None
+        if line.startswith("go.uber.org/cff"):
+            return (m.group(1).strip()[:200] + " in " + line.split("(")[0], out[max(0, m.start() - 200):i + 3000])
+        if line.startswith("created by"):
+            return None
+    return None
 
 
 def parse(trace, drvout):
